@@ -4,6 +4,7 @@
    native call is accepted only with exactly the amount a cw20 deployment pulls. *)
 From MP.Model Require Import Prelude U128 SInt Feed Vamm VammOps Token World Engine Runtime.
 From MP.Proofs Require Import Tactics SIntFacts TwinFacts.
+From MP.Model Require Import Scenario.
 
 Theorem C13_only_transfer_from_differs : forall w owner receiver amt,
   execute_transfer_from w owner receiver amt =
@@ -26,3 +27,23 @@ Theorem C13_increase_native_needs_cw20_pull_partial : forall w i o w' subs swap 
     sf_amount funds = sf_required funds + ts_open_notional swap * e_dec (ec (w_eng w)) / ts_leverage swap + spread + toll.
 Proof. exact increase_native_exact_funds. Qed.
 Print Assumptions C13_increase_native_needs_cw20_pull_partial.
+
+(* KNOWN FINDING (reverse_required_funds), as a refutation on the model: in twin deployments (same parameters,
+   same history, cw20 / native) a reversing OpenPosition that needs fresh margin succeeds on cw20, pulling
+   1176817 from the trader; the native call with exactly that amount attached is refused; the amount the
+   native engine does accept is 6058939 - the whole new margin, without offsetting the released equity. *)
+Definition c13_cw20_reversal : option Z :=
+  match scenario with
+  | Ok w => match exec_op (-1) w (OEngine 21 (EOpenPosition 11 Sell 11000000 2000000 0) 0) with
+            | Ok w' => Some (bal (w_tok w) 21 - bal (w_tok w') 21) | Err _ => None end
+  | Err _ => None
+  end.
+Definition c13_native_reversal (funds : Z) : option Z :=
+  match scenario_native with
+  | Ok w => match exec_op (-1) w (OEngine 21 (EOpenPosition 11 Sell 11000000 2000000 0) funds) with
+            | Ok w' => Some (bal (w_tok w) 21 - bal (w_tok w') 21) | Err _ => None end
+  | Err _ => None
+  end.
+Example C13_refuted_reversal_required_funds :
+  c13_cw20_reversal = Some 1176817 /\ c13_native_reversal 1176817 = None /\ c13_native_reversal 6058939 = Some 6058939.
+Proof. repeat split; vm_compute; reflexivity. Qed.
